@@ -239,6 +239,14 @@ def run(rec, shard, nshards, t):
             judge_file(rec, rf, world.pool(rnd, 16 if t == 'quick' else 20), rows, tmp, rnd)
             if i % 3 == 0:
                 judge_parse_generic(rec, rf, rows, tmp, rnd)
+            if i % 4 == 1:
+                # the deprecated `type: amex` / `type: boa` readers hand rows to the same rules: same tag union (date conditions included)
+                from vt.checks import c01
+                if rnd.random() < .6:
+                    d0 = rnd.choice(['2025-01-01', '2025-02-28', '2024-12-31', '2025-06-15'])
+                    rf.rules.insert(rnd.randint(0, len(rf.rules)), R.Rule('DateTag', rnd.choice(['date >= "%s"', 'date < "%s"', 'date == "%s"', '"%s" <= date']) % d0, '', '',
+                                                                        tags=[rnd.choice(['h2', 'early', 'On-Day'])]))
+                c01.judge_legacy_parsers(rec, rf, world.pool(rnd, 16), tmp, rnd, what='tags')
             if i < 1 and shard == 0:
                 rec.sample({'rules_file': R.render(rf)})
         for i in range((80 if t == 'quick' else 1500) // nshards):
@@ -263,6 +271,9 @@ def replay(rec, case):
             judge_parse_generic(rec, R.RuleFile.from_json(case['rf']), case['rows'], tmp, rnd, ptxns=txns)
         elif case['kind'] == 'witness-most-specific':
             witness(rec)
+        elif case['kind'] == 'legacy-parser':
+            from vt.checks import c01
+            c01.judge_legacy_parsers(rec, R.RuleFile.from_json(case['rf']), txns, tmp, rnd, what='tags')
         else:
             for _ in range(5):
                 judge_file(rec, R.RuleFile.from_json(case['rf']), txns, case['rows'], tmp, rnd)
